@@ -658,6 +658,14 @@ func (f *indexFetcher) createIndexIterator() (indexIterator, error) {
 		return nil, err
 	}
 
+	for _, matcher := range matchers {
+		if matcher == nil {
+			// There is no way to evaluate the condition on index entries (e.g. a JSON field compared
+			// with an array or an object). The index can not be used, the caller falls back to a scan.
+			return nil, nil
+		}
+	}
+
 	var iter indexIterator
 
 	if fieldConditions[0].op == opEq {
